@@ -52,7 +52,11 @@ def alphabet(cand, maxb=2):
         for k in range(0, maxb + 1):
             for combo in itertools.permutations(cand[node], k):
                 ops.append((node, combo))
+    ops.append((SQ, ()))
     return ops
+
+
+SQ = -1      # not a re-basing: an earlier query through super() on the instance (fills the class specifications' super caches)
 
 
 class Graph:
@@ -118,6 +122,12 @@ class Graph:
         return 'FOREIGN:%r' % (spec,)
 
     def rebase(self, node, bases):
+        if node == SQ:
+            from zope.interface import providedBy
+            M, K0, K1, ob = self.keep
+            for C in (K1, K0):
+                list(providedBy(super(C, ob)).flattened())
+            return
         bs = tuple(self.nodes[b] for b in bases)
         if node in IFACES and not bs:
             bs = (self.Interface,)
@@ -139,7 +149,8 @@ def reach(bases, s):
 
 
 def fmt(ops):
-    return '; '.join('%s.__bases__ = (%s)' % (NAMES[n], ', '.join(NAMES[b] for b in bs) + (',' if len(bs) == 1 else ''))
+    return '; '.join('providedBy(super(K1, ob)), providedBy(super(K0, ob))' if n == SQ else
+                     '%s.__bases__ = (%s)' % (NAMES[n], ', '.join(NAMES[b] for b in bs) + (',' if len(bs) == 1 else ''))
                      for n, bs in ops)
 
 
